@@ -196,12 +196,14 @@ def session(root, ops, si=0):
             edefs.append(ns)
         elif op[0] == "eio":
             import joblib._store_backends as sb_, errno as _errno_
-            if not ro["on"]:
+            if not ro["on"] and not ro.get("eio_armed"):          # (one failure, the retry succeeds: arming twice must not stack)
                 orig_open = sb_.FileSystemStoreBackend.__dict__["_open_item"]
+                ro["eio_armed"] = True
 
                 def eio_open(f, mode="r", *a, _orig=orig_open, **k):
                     if "r" in mode and str(f).endswith("func_code.py"):
                         sb_.FileSystemStoreBackend._open_item = _orig         # one shot
+                        ro["eio_armed"] = False
                         raise OSError(_errno_.EIO, "Input/output error", str(f))
                     return open(f, mode, *a, **k)
                 sb_.FileSystemStoreBackend._open_item = staticmethod(eio_open)
